@@ -194,7 +194,7 @@ P["C10"] = dict(
         ("Props.C10.C10_cmp_normal_forms", "Cmp on well-formed normal forms = comparison of values"),
         ("Props.C10.C10_total", "every RFC 8259 numeral (any digit counts, any sign/fraction/exponent) is recognised, except integer part 0 directly followed by an exponent"),
         ("Props.C10.C10_zeroexp_not_recognised", "0e1 is not recognised (known finding K-C10-zeroexp, proved of the model)")),
-    runs=[{"cmd": ["number-diff"]}, {"cmd": ["sem-rules"]}],
+    runs=[{"cmd": ["number-diff"]}, {"cmd": ["sem-rules"]}, {"cmd": ["sem-rules-full"]}],
     level_text="Proof: numeral text -> normal form -> comparison is exact decimal arithmetic: Cmp of two scanned numerals equals the comparison of their positional denotations by integer cross-scaling, and the fractional length decides precision/integrality — theorems for numerals of any length and exponent. Tie: NewNumber/String/LengthOfFractionalPart/Cmp vs the Lean model bounded-exhaustively (all strings over -0159.eE+ up to 5/7 chars) and on random numerals up to 60 digits, |exp|<400; plus the real Cmp against math/big.Rat.",
     level_note="Trusted: Lean kernel (one Mathlib module for ring); exponents of more than 18 digits wrap in Go's ParseUint (outside the property's quantifier); K-C10-zeroexp, K-C10-enumtext known findings.",
     technique="Lean 4 theorems (scanner = positional denotation, digit-wise Cmp = value comparison) + bounded-exhaustive differential")
